@@ -74,7 +74,8 @@ theorem erc20_evm_to_btc (id : Ident) (d : Fungible) (resp : Bytes) (n : Nat) (h
       .ok ⟨id, .btc (effAmount d.amount resp / 10 ^ 10) d.recipient, none⟩ := by
   have he := amountWord_eq d.amount resp hr
   simp only [relay, source, dest, erc20_src id d resp h hr, ho]
-  simp [btcHandle, he, beToNat_pad32, Nat.mod_eq_of_lt hfit]
+  have hfit' : effAmount d.amount resp / 10000000000 < 18446744073709551616 := by simpa using hfit
+  simp [btcHandle, he, beToNat_pad32, hfit']
 
 example : (⟨12345678900000000000, List.replicate 42 49, none⟩ : Fungible).WF ∧
     effAmount 12345678900000000000 [] / 10 ^ 10 < 2 ^ 64 := by decide
@@ -96,7 +97,8 @@ theorem sub_to_sub (id : Ident) (d : Fungible) (h : d.WF) :
 theorem sub_to_btc (id : Ident) (d : Fungible) (h : d.WF) (hfit : d.amount / 10 ^ 10 < 2 ^ 64) :
     relay ⟨.sub, .btc, id, Src.fungible d, [], 0⟩ = .ok ⟨id, .btc (d.amount / 10 ^ 10) d.recipient, none⟩ := by
   simp only [relay, source, dest, sub_src id d h]
-  simp [btcHandle, beToNat_pad32, Nat.mod_eq_of_lt hfit]
+  have hfit' : d.amount / 10000000000 < 18446744073709551616 := by simpa using hfit
+  simp [btcHandle, beToNat_pad32, hfit']
 
 /-! ### ERC721 and permissionless generic (EVM → EVM) -/
 
@@ -144,7 +146,8 @@ theorem btc_to_btc (id : Ident) (sat : Nat) (addr : Bytes) (dst : Nat) (ha : add
     relay ⟨.btc, .btc, id, Src.btcText addr dst, [], sat⟩ =
       .ok ⟨⟨id.src, dst, id.nonce, id.rid⟩, .btc sat addr, none⟩ := by
   simp only [relay, source, dest, btc_src id.src id.nonce id.rid sat addr dst ha hd]
-  simp [btcHandle, beToNat_natToBE, Nat.mod_eq_of_lt hfit]
+  have hfit' : sat < 18446744073709551616 := by simpa using hfit
+  simp [btcHandle, beToNat_natToBE, hfit']
 
 example : (List.replicate 20 (171 : UInt8)).length = 20 ∧ (2 : Nat) < 256 ∧ 2100000000000000 * 10 ^ 10 < 2 ^ 256 := by decide
 
@@ -329,7 +332,8 @@ theorem expectedMsg_sound (dk : DstKind) (m : Msg) (e : Out) (h : expectedMsg dk
     split at h
     · next ha =>
       simp only [Option.some.injEq] at h; rw [← h]
-      simp [destOut, dest, btcHandle, Nat.mod_eq_of_lt ha]
+      have ha' : beToNat a / 10000000000 < 18446744073709551616 := by simpa using ha
+      simp [destOut, dest, btcHandle, ha']
     · cases h
   · next _ _ _ t r md ht hp =>
     subst ht hp
